@@ -4,8 +4,9 @@ import os, sys, json, glob, importlib
 V = os.path.dirname(os.path.dirname(os.path.abspath(__file__)))
 sys.path.insert(0, os.path.join(V, "harness")); sys.path.insert(0, "/repo")
 kf = json.load(open(os.path.join(V, "known_findings.json")))["findings"]
+kf = [f for f in kf if not f.get("mirrored_from")]   # open entries mirrored from known_findings.d are counted once, from their own file
 for f in glob.glob(os.path.join(V, "known_findings.d", "*.json")): kf += json.load(open(f))["findings"]
-print("| id | obligations (Qed) | property theorems | axioms | translated (tie T) | quick cases (model) | streams | fixed / open findings |")
+print("| id | obligations (Qed) | property theorems | axioms | translated (tie T) | cases of the last run (through the model) | streams | fixed / open findings |")
 print("|---|---|---|---|---|---|---|---|")
 for p in sorted(glob.glob(os.path.join(V, "evidence", "C*.json"))):
     e = json.load(open(p)); c = e["coverage"]; pid = e["property_id"]
